@@ -4,8 +4,10 @@ Leg 1 (Coq correspondence): synthetic hook tables (frames_gen) run through the r
 with an exception injected at the k-th dynamic hook invocation (unwrap_stackitem, FrameIterator
 step, contexts_active_in_frame, fill_context, elaborate_frame) for every k, pairs of faults and
 random multi-fault sets; the observed Stack tree (frames, hide flags, origins, contexts, child
-stacks, per-Stack ordered errors) is compared inside Coq with M_Frames.extract evaluated under
-the guard record regenerated from the source (M_Frames_Fault.src_guards).
+stacks, per-Stack ordered errors) is compared inside Coq with M_Frames.extract evaluated at the
+PROVEN guard values (all_guards); the facts regenerated from the source enter only through the proof
+obligation C05_guards_regenerated (src_guards = all_guards), so a mismatch is always a real
+disagreement between the implementation and the proven model.
 Direct oracles on the implementation alone: extract() returned; str/format_flat/as_stdlib_summary
 work; error shape (alone if one, ExceptionGroup of >= 2 otherwise, on every Stack of the tree);
 frames yielded by the top-level extraction before the first fault fired are identical (same
@@ -322,7 +324,7 @@ def coq_case(desc, obs):
         out = "(Raised (EFault 0))"
     else:
         out = f"(Ok {G.c_stack(obs)})"
-    return f"({G.c_cfg(desc, guards='src_guards')}, {G.c_item(desc['root'])}, {out})"
+    return f"({G.c_cfg(desc)}, {G.c_item(desc['root'])}, {out})"
 
 
 def direct_oracle(desc, obs):
